@@ -124,22 +124,44 @@ func build(root string, cfg Config, hist []int) (*world, string) {
 			batch = append(batch, &base.MetricItem{Resource: res, Classification: 1, PassQps: n, BlockQps: n + 1, CompleteQps: n + 2, ErrorQps: n + 3, AvgRt: n + 34, Concurrency: uint32(n + 5)})
 			its = append(its, item{sec: sec, res: res, n: n})
 		}
-		before := map[string]int64{}
+		before := map[string]string{}
 		for _, f := range dataFiles(dir) {
-			if st, err := os.Stat(filepath.Join(dir, f)); err == nil {
-				before[f] = st.Size()
+			if b, err := os.ReadFile(filepath.Join(dir, f)); err == nil {
+				before[f] = string(b)
 			}
 		}
 		if err := wr.Write(uint64(sec*1000), batch); err != nil {
 			return w, fmt.Sprintf("Write(%d) failed: %v", sec, err)
 		}
-		// which file grew? (the batch goes to exactly one file)
+		// which file took the batch? (the batch goes to exactly one file.) A data file that existed
+		// before the write may have been removed (pruning) or appended to, never rewritten.
 		grown := ""
 		var endOff int64
 		for _, f := range dataFiles(dir) {
-			st, _ := os.Stat(filepath.Join(dir, f))
-			if st != nil && st.Size() > before[f] {
-				grown, endOff = f, st.Size()
+			b, _ := os.ReadFile(filepath.Join(dir, f))
+			old, existed := before[f]
+			if existed && !strings.HasPrefix(string(b), old) {
+				return w, fmt.Sprintf("Write(%d) rewrote the existing data file %s (%d bytes of accepted items replaced by %d bytes)", sec, f, len(old), len(b))
+			}
+			if len(b) > len(old) {
+				grown, endOff = f, int64(len(b))
+			}
+		}
+		if grown == "" {
+			// the writer rolls AFTER writing: with a tight file-count limit the file that took the
+			// batch may have been pruned within the same call. Otherwise the items are simply gone.
+			pruned := false
+			now := map[string]bool{}
+			for _, f := range dataFiles(dir) {
+				now[f] = true
+			}
+			for f := range before {
+				if !now[f] {
+					pruned = true
+				}
+			}
+			if !pruned {
+				return w, fmt.Sprintf("Write(%d) was accepted but no data file holds the items afterwards", sec)
 			}
 		}
 		var idxSize int64
@@ -301,6 +323,18 @@ func (w *world) checkUncut(c *props.Ctx, hist []int, pairs bool) *failure {
 		return &failure{"C17:too-many-files", fmt.Sprintf("%d metric log files exist, the configured maximum is %d", n, w.cfg.MaxFiles), nil}
 	}
 	ret := w.retained()
+	// bounded means the OLDEST files go: the retained items are a suffix of the accepted ones
+	if len(ret) > 0 {
+		first := -1
+		for i, it := range w.items {
+			if it.key() == ret[0].key() {
+				first = i
+			}
+		}
+		if first < 0 || len(w.items)-first != len(ret) {
+			return &failure{"C17:newer-items-dropped-before-older", fmt.Sprintf("%d of %d accepted items are retained but they are not the most recent ones (first retained is #%d)", len(ret), len(w.items), first), nil}
+		}
+	}
 	byKey := map[string]item{}
 	for _, it := range w.items {
 		byKey[it.key()] = it
@@ -569,8 +603,22 @@ func one(c *props.Ctx, root string, cfg Config, h []int, cuts bool, perSig map[s
 	}
 	c.R.Transitions++
 	if ferr != "" {
-		rep(&failure{"C17:write-error", ferr, nil})
+		sg := "C17:write-error"
+		if strings.Contains(ferr, "rewrote the existing data file") {
+			sg = "C17:existing-data-file-rewritten"
+		} else if strings.Contains(ferr, "no data file holds the items") {
+			sg = "C17:accepted-items-lost-at-write"
+		}
+		rep(&failure{sg, ferr, nil})
 		return
+	}
+	if os.Getenv("VERIF_DEBUG") != "" {
+		fs := dataFiles(w.dir)
+		sort.Strings(fs)
+		fmt.Fprintf(os.Stderr, "C17 debug: cfg=%+v writes=%d files=%v retained=%d of %d\n", cfg, len(h), fs, len(w.retained()), len(w.items))
+		for _, it := range w.items {
+			fmt.Fprintf(os.Stderr, "   item %s file=%s end=%d idxEnd=%d\n", it.key(), it.file, it.end, it.idxEnd)
+		}
 	}
 	f := w.checkUncut(c, h, len(h) <= 3)
 	if f != nil {
@@ -625,6 +673,34 @@ func run(c *props.Ctx) {
 				return
 			}
 			one(c, root, cfg, h, len(h) <= cutDepth, perSig)
+		}
+	}
+	// roll chains: "regardless of how many file rolls happened" - with a size limit of one byte every
+	// write rolls the file; chains of 1..maxChain writes (a new second each time, or two writes per
+	// second) reach two-digit roll numbers on one day and the file-count limit many times over
+	maxChain := 14
+	if !c.Quick() {
+		maxChain = 24
+	}
+	c.R.Bounds["roll_chain_max_writes"] = maxChain
+	for _, cfg := range []Config{{1, 4}, {1, 12}, {1, 30}} {
+		for _, pat := range [][]int{{1}, {1, 0}} {
+			for n := 1; n <= maxChain; n++ {
+				idx++
+				if !c.Mine(idx) {
+					continue
+				}
+				if c.Expired() {
+					c.R.Cap("time budget reached before all roll chains were explored")
+					c.R.States = c.R.Transitions
+					return
+				}
+				h := make([]int, n)
+				for i := range h {
+					h[i] = pat[i%len(pat)]
+				}
+				one(c, root, cfg, h, false, perSig)
+			}
 		}
 	}
 	c.R.States = c.R.Transitions
